@@ -6,7 +6,7 @@ elementwise lifting, matmul, sum/prod) and Shamir.v (np_random_split / np_recomb
 is run on secure arrays in the multi-party simulator and compared three ways: (i) plain NumPy on the
 opened inputs, (ii) the same computation with secure scalars, (iii) the Coq model (vm_compute) for
 reshape/transpose/concatenate/stack/matmul/broadcast.  thresha np_* functions are called directly and
-compared exactly with the list versions on the same (permuted) tapes / PRF keys.
+compared exactly with the list versions on the same (permuted, for np_random_split) tapes / same PRF keys.
 """
 import itertools, time, math
 from lib.core import zlit, zlist, natlit
@@ -20,7 +20,7 @@ MANIFEST = {
             'models; matmul_correct: entry (i,j) of the row-major product is sum_t A[i,t]*B[t,j], and (AB)^T = B^T A^T; sum/prod '
             'over all elements = fold of the flat data, invariant under reshape, = sum/product of row sums/products, all() of '
             'bits = product; np_random_split = random_split on a permuted tape, np_recombine = recombine (abstract field); '
-            'np_pseudorandom_share_0 term = pseudorandom_share_zero term on the reversed PRF block. Every run ties this to /repo: '
+            'np_pseudorandom_share_0 term (power sum i1^d..i1^1) = pseudorandom_share_zero term (Horner) on the same PRF block. Every run ties this to /repo: '
             'secure int / fixed-point / prime-field arrays (size <= 24, rank <= 3, broadcasts) in the m-party simulator '
             '((m,t)=(1,0),(3,1), PRSS on/off) against plain NumPy, against the same computation with secure scalars, and '
             'against the Coq index-map/matmul/broadcast model by vm_compute; thresha np_* vs list versions compared exactly.',
@@ -33,8 +33,7 @@ MANIFEST = {
             'np_dstack/column_stack, np_log/exp/exp2/pow, np_det, np_reciprocal/divide, np_to_bits/from_bits/find, np_vander, '
             'np_convolve (used via secpols in C38), argmin/argmax with axes and keys. The mask-bound slip in '
             '_np_pow_public_int_base_secret_integral_exponent is a masking defect owned by C18, not checked here. '
-            'np_pseudorandom_share_0 equals pseudorandom_share_zero only after reversing each PRF block of d values (both are '
-            'sharings of zero; proved and checked in that form). Trusted: Coq kernel, simulator, NumPy as the specification.',
+            'np_pseudorandom_share_(0) are compared exactly with the list versions on the same thresha.PRF keys. Trusted: Coq kernel, simulator, NumPy as the specification.',
     'technique': 'Coq proof of row-major index maps/lifting/matmul + simulator-run three-way differential check (NumPy, secure scalars, vm_compute model)',
 }
 
@@ -519,20 +518,6 @@ class Tape:
         return v
 
 
-class RevPRF:
-    """PRF whose (n, d)-shaped output is the list output with every block of d values reversed."""
-
-    def __init__(self, prf, np):
-        self.prf, self.np = prf, np
-
-    def __call__(self, s, n=None):
-        if isinstance(n, tuple) and len(n) == 2:
-            lst = self.prf(s, n[0] * n[1])
-            arr = self.np.fromiter(lst, object, count=len(lst)).reshape(n)
-            return arr[:, ::-1]
-        return self.prf(s, n)
-
-
 def thresha_checks(ctx, np):
     from mpyc import thresha, finfields
     import secrets as _secrets
@@ -600,21 +585,17 @@ def thresha_checks(ctx, np):
                         sa = thresha.np_pseudorandom_share(Fp, m, i, prfs, uci, nn)
                         sa = [int(v) % p for v in np.asarray(sa.value).tolist()]
                         zl = [int(v) % p for v in thresha.pseudorandom_share_zero(Fp, m, i, prfs, uci, nn)]
-                        rprfs = {S: RevPRF(f, np) for S, f in prfs.items()}
-                        za = thresha.np_pseudorandom_share_0(Fp, m, i, rprfs, uci, nn)
+                        za = thresha.np_pseudorandom_share_0(Fp, m, i, prfs, uci, nn)
                         za = [int(v) % p for v in np.asarray(za.value).reshape(-1).tolist()]
-                        zraw = thresha.np_pseudorandom_share_0(Fp, m, i, prfs, uci, nn)
-                        zraw = [int(v) % p for v in np.asarray(zraw.value).reshape(-1).tolist()]
                         sh_l.append(sl); sh_a.append(sa); z_l.append(zl); z_a.append(za)
                         ctx.case(dict(key, what='prss', i=i, n=nn), nontrivial=True, kind='thresha np_pseudorandom_share(_0)')
                         if sl != sa:
                             ctx.violation('thresha-np_pseudorandom_share differs from pseudorandom_share', dict(key, i=i, np=sa, list=sl))
                         elif zl != za:
-                            ctx.violation('thresha-np_pseudorandom_share_0 differs from pseudorandom_share_zero on block-reversed PRF output',
-                                          dict(key, i=i, np=za, list=zl, np_same_order=zraw))
+                            ctx.violation('thresha-np_pseudorandom_share_0 differs from pseudorandom_share_zero (same PRF keys)',
+                                          dict(key, i=i, np=za, list=zl))
                         else:
                             n_ok += 1
-                        z_a[-1] = zraw
                     # both zero-sharings really share zero (degree <= m-1 interpolation over all parties at 0), the
                     # random sharings of all parties are consistent with degree t
                     if m > t:
